@@ -1,5 +1,9 @@
 """bit ranges / constants of the standard and one-hop path -> Gen/StdPathLayout.v
-(src, need, emit, missing, re are injected by tools/gen.py)"""
+(src, need, expect, emit, missing, re are injected by tools/gen.py)
+
+need   = constants/tables the model imports (bit ranges, sizes, flag bits, MAC block offsets) and
+         checks the harness cannot observe; expect = mirrored statements whose behaviour the
+         correspondence observes (a miss only enlarges the run)."""
 
 def generate():
     rel = "crates/libs/sciparse/src/proto/dataplane_path/standard/layout.rs"
@@ -42,7 +46,7 @@ def generate():
     m = need(t4, r"pub const EXP_TIME_UNIT: Duration = Duration::new\((\d+), ([\d_]+)\);", "EXP_TIME_UNIT", rel4)
     secs, nanos = (int(m.group(1)), int(m.group(2).replace("_", ""))) if m else (0, 0)
     out.append(f"Definition EXP_TIME_UNIT_MILLIS : N := {secs * 1000 + nanos // 1000000}.")
-    need(t4, r"EXP_TIME_UNIT\.saturating_mul\(exp_time as u32 \+ 1\)", "exp_time_to_duration formula", rel4)
+    expect(t4, r"EXP_TIME_UNIT\s*\.\s*saturating_mul\(\s*\w+ as u32 \+ 1\s*\)", "exp_time_to_duration formula", rel4)
 
     # one-hop layout: info field followed by two hop fields
     rel5 = "crates/libs/sciparse/src/proto/dataplane_path/onehop/layout.rs"
@@ -56,23 +60,30 @@ def generate():
     rel6 = "crates/libs/sciparse/src/proto/dataplane_path/standard/mac.rs"
     t6 = src(rel6)
     offs = {}
-    for nm, rx in (("BETA", r"mac_input_data\[(\d+)\.\.(\d+)\]\.copy_from_slice\(&mac_chain_beta\.to_be_bytes\(\)\);"),
-                   ("TS", r"mac_input_data\[(\d+)\.\.(\d+)\]\.copy_from_slice\(&timestamp\.to_be_bytes\(\)\);"),
-                   ("CI", r"mac_input_data\[(\d+)\.\.(\d+)\]\.copy_from_slice\(&cons_ingress\.to_be_bytes\(\)\);"),
-                   ("CE", r"mac_input_data\[(\d+)\.\.(\d+)\]\.copy_from_slice\(&cons_egress\.to_be_bytes\(\)\);")):
-        m = need(t6, rx, "mac input " + nm, rel6)
-        offs[nm] = (int(m.group(1)), int(m.group(2))) if m else (0, 0)
-    m = need(t6, r"mac_input_data\[(\d+)\] = exp_time;", "mac input EXP", rel6)
+    body6 = need(t6, r"pub fn calculate_hop_mac\((.*?)\n    \}", "calculate_hop_mac body", rel6, re.S)
+    body6 = body6.group(1) if body6 else ""
+    # the four multi-byte writes, whatever the buffer / parameter names: <buf>[a..b].copy_from_slice(&<x>.to_be_bytes())
+    writes = re.findall(r"\w+\[(\d+)\.\.(\d+)\]\s*\.\s*copy_from_slice\(&\s*(\w+)\.to_be_bytes\(\)\)", body6)
+    params = re.findall(r"(\w+):\s*u(?:16|32|8)", body6.split(")")[0])     # beta, timestamp, exp, ingress, egress in order
+    byname = {x: (int(a), int(b)) for a, b, x in writes}
+    order = [q for q in params if q in byname]
+    if len(order) != 4:
+        missing.append(f"{rel6}: mac input: four to_be_bytes writes of the u16/u32 parameters")
+        order = (order + [None] * 4)[:4]
+    for nm, q in zip(("BETA", "TS", "CI", "CE"), order):
+        offs[nm] = byname.get(q, (0, 0))
+    exp_param = next((q for q in params if q not in byname), None)
+    m = need(body6, r"\w+\[(\d+)\]\s*=\s*" + (exp_param or "exp_time") + r"\s*;", "mac input EXP", rel6)
     offs["EXP"] = (int(m.group(1)), int(m.group(1)) + 1) if m else (0, 0)
-    m = need(t6, r"let mut mac_input_data = \[0u8; (\d+)\];", "mac input size", rel6)
+    m = need(t6, r"let mut \w+ = \[0u8; (\d+)\];", "mac input size", rel6)
     out.append(f"Definition MAC_INPUT_LEN : N := {int(m.group(1)) if m else 0}.")
     for k in ("BETA", "TS", "EXP", "CI", "CE"):
         out.append(f"Definition MAC_IN_{k} : N * N := ({offs[k][0]}, {offs[k][1]}).")
-    m = need(t6, r"result\.copy_from_slice\(&mac\[\.\.(\d+)\]\);", "mac truncation", rel6)
+    m = need(t6, r"copy_from_slice\(&\s*\w+\[\.\.(\d+)\]\)", "mac truncation", rel6)
     out.append(f"Definition MAC_LEN : N := {int(m.group(1)) if m else 0}.")
-    need(t6, r"cmac::Cmac::<aes::Aes128>::new\(key\.into\(\)\)", "AES-128-CMAC", rel6)
-    need(t6, r"let partial_mac = u16::from_be_bytes\(\[hop_mac\[0\], hop_mac\[1\]\]\);", "mac_beta_step partial mac", rel6)
-    need(t6, r"accumulator \^ partial_mac", "mac_beta_step xor", rel6)
+    expect(t6, r"Cmac::<\s*(aes::)?Aes128\s*>", "AES-128-CMAC", rel6)
+    expect(t6, r"u16::from_be_bytes\(\[\s*\w+\[0\],\s*\w+\[1\]\s*\]\)", "mac_beta_step partial mac", rel6)
+    expect(t6, r"\w+\s*\^\s*\w+", "mac_beta_step xor", rel6)
 
     # StandardPath::wire_valid: is the range check "current_hop_field fits the 6-bit CurrHF
     # field" present (added by the C03 repair)?  Optional construct: emitted as a boolean.
@@ -82,10 +93,10 @@ def generate():
     wv = m.group(1) if m else ""
     fits = re.search(r"self\.current_hop_field as usize\s*>\s*(StdPathMetaLayout::CURR_HOP_FIELD_RNG\s*\.max_uint\(\)|63)", wv) is not None
     out.append(f"Definition WIRE_VALID_CHECKS_CURR_HF_FITS : bool := {'true' if fits else 'false'}.")
-    need(wv, r"self\.current_hop_field as usize >= self\.hop_field_count\(\)", "wire_valid curr_hop_field check", rel7)
-    need(wv, r"self\.current_info_field as usize >= self\.info_field_count\(\)", "wire_valid current_info_field check", rel7)
-    need(wv, r"segment\.hop_fields\.len\(\) > StdPathMetaLayout::MAX_SEGMENT_HOPS", "wire_valid MAX_SEGMENT_HOPS check", rel7)
-    need(wv, r"segment\.hop_fields\.is_empty\(\)", "wire_valid empty segment check", rel7)
+    expect(wv, r"current_hop_field as usize\s*>=\s*self\s*\.\s*hop_field_count\(\)", "wire_valid curr_hop_field check", rel7)
+    expect(wv, r"current_info_field as usize\s*>=\s*self\s*\.\s*info_field_count\(\)", "wire_valid current_info_field check", rel7)
+    need(wv, r"hop_fields\s*\.\s*len\(\)\s*>\s*StdPathMetaLayout::MAX_SEGMENT_HOPS", "wire_valid MAX_SEGMENT_HOPS check (not observable: views carry 6-bit lengths)", rel7)
+    expect(wv, r"hop_fields\s*\.\s*is_empty\(\)", "wire_valid empty segment check", rel7)
 
     body = "From Coq Require Import NArith.\nLocal Open Scope N_scope.\n" + "\n".join(out) + "\n"
     emit("StdPathLayout.v", body)
